@@ -8,7 +8,7 @@ from harness.props.c17 import v2_valid_entropy
 from bip_utils import (Bip39SeedGenerator, Bip39Languages, ElectrumV1MnemonicEncoder, SubstrateBip39SeedGenerator,
                        ElectrumV2SeedGenerator, ElectrumV1SeedGenerator)
 
-LEAN_MODULES = ["BipVerif.Props.C02"]
+LEAN_MODULES = ["BipVerif.Props.C02", "BipVerif.Props.C01Tables"]   # the seed theorems are about sentences over the registered word lists
 PASSPHRASES = ["", "TREZOR", "pass phrase", "é", "é", "ﬁancé", "ｆｕｌｌ", "Å", "Å", "Å", "q̣̇", "q̣̇", "　x　", "😀𝔘", "a\x00b", "ǆ",
                "ﷺ", "가", "가", "ßẞ", " trailing "]
 
@@ -172,6 +172,75 @@ def relations(rng, tier, rpt):
                     outs.append(type(ex).__name__)
             if len(set(outs)) != 1 or (len(sent) != 12 and outs[0] != "ValueError"):
                 rep("ElectrumV2SeedGenerator: argument forms disagree or an invalid sentence yields a seed", text, str(outs), "equal; ValueError when invalid")
+    # history: the seed is a function of (sentence, passphrase) whatever was processed before — sentences made only of words shared by
+    # two lists, interleaved with sentences of the other language, every generator in auto-detection mode and with the language given
+    from harness.c15_catalogue import _shared_words
+    amb = [(a, b, _shared_words(a, b)) for a, b in (("english", "french"), ("french", "english"))]
+    nh = 0
+    for rnd in range(2):
+        for a, b, sent in amb:
+            if not sent:
+                continue
+            other = Bip39Languages[b.upper()]
+            warm = " ".join(spec_encode(words_of(b.upper()), bytes(rng.randrange(256) for _ in range(16))))
+            want = hashlib.pbkdf2_hmac("sha512", nfkd(sent).encode(), nfkd("mnemonic" + "p").encode(), 2048, 64).hex()
+            first = None
+            for phase in ("before", "after"):
+                if phase == "after":
+                    Bip39SeedGenerator(warm).Generate("")                 # an auto-detected sentence of the other language
+                    Bip39SeedGenerator(warm, other).Generate("")
+                    SubstrateBip39SeedGenerator(warm).Generate("")
+                for lg in (None, Bip39Languages[a.upper()]):
+                    nh += 1
+                    try:
+                        got = Bip39SeedGenerator(sent, lg).Generate("p").hex()
+                    except Exception as ex:  # noqa
+                        got = type(ex).__name__
+                    try:
+                        sub = SubstrateBip39SeedGenerator(sent, lg).Generate("p").hex()
+                    except Exception as ex:  # noqa
+                        sub = type(ex).__name__
+                    # with the language given the sentence is valid by construction; auto-detection must at least be stable
+                    if lg is not None and got != want:
+                        rep("BIP-39 seed of a valid sentence (language given) is not its PBKDF2 definition %s processing a sentence of another language" % phase, sent, got, want)
+                    key = (lg is None)
+                    if first is None:
+                        first = {}
+                    if key in first and first[key] != (got, sub):
+                        rep("seed generators answer differently for the same (sentence, passphrase) after a sentence of another language was processed", sent, str((got[:16], sub[:16])), str((first[key][0][:16], first[key][1][:16])))
+                    first.setdefault(key, (got, sub))
+    rpt.extra["history_checks"] = nh
     rpt.extra["argument_form_checks"] = nf
     rpt.extra["impl_relation_checks"] = n
     return bad[:6]
+
+
+def search_broken(broken, rng):
+    """a word-list table theorem failed: exhibit a sentence of the registered list whose seed is no longer PBKDF2 of its NFKD form
+    (refused, or different), or an invalid sentence that now yields a seed."""
+    import os
+    from harness.core import VERIF
+    gdir = os.path.join(VERIF, "golden", "bip39")
+    for lang in BIP39_LANGS:
+        gold = [w for w in open(os.path.join(gdir, lang + ".txt"), encoding="utf-8").read().split("\n") if w]
+        try:
+            cur = words_of(lang)
+        except Exception as ex:  # noqa
+            return {"relation": "word list %s cannot be loaded: %s" % (lang, ex), "impl_output": type(ex).__name__, "model_output": "2048 words"}
+        for i, (a, b) in enumerate(zip(cur, gold)):
+            if a != b:
+                for _ in range(8):
+                    v = (i << 121) | rng.getrandbits(121)
+                    ent = (v >> 4).to_bytes(16, "big")
+                    sent = " ".join(spec_encode(gold, ent))
+                    want = hashlib.pbkdf2_hmac("sha512", nfkd(sent).encode(), nfkd("mnemonic").encode(), 2048, 64).hex()
+                    for lg in (Bip39Languages[lang], None):
+                        try:
+                            got = Bip39SeedGenerator(sent, lg).Generate("").hex()
+                        except Exception as ex:  # noqa
+                            got = type(ex).__name__
+                        if got != want:
+                            return {"relation": "word %d of %s differs from the registered BIP-39 list: the seed of a valid registered sentence is not its PBKDF2 definition" % (i, lang),
+                                    "entry_point": "Bip39SeedGenerator(sentence, %s).Generate('')" % (lg.name if lg else "auto"), "input": sent, "impl_output": got, "model_output": want,
+                                    "request_lines": []}
+    return None
